@@ -165,6 +165,8 @@ def c16_jobs(tier):
             jobs.append(J("ast", "ZZ_C16_tree", order=order, depth=0, width=3, maxn=2, kinds=7, timeout_s=7200))
             jobs.append(J("ast", "ZZ_C16_tree", order=order, depth=2, width=2, maxn=1, kinds=1, timeout_s=7200))
         jobs.append(J("ast", "ZZ_C16_shared", order=order))
+    # a variable-free item of ANY size encodes: the header function never reports an error within the limit (harness shared with C13)
+    jobs += [J("ast", "ZZ_C13_header", typ=t) for t in range(14)]
     jobs += [J("ast", "ZZ_C16_dupfill", which=w) for w in range(5)]
     jobs += [J("ast", "ZZ_C16_ascii", k=k) for k in ([0, 1, 2, 3] if tier == "quick" else [0, 1, 2, 3, 4, 5])]
     return jobs
@@ -191,6 +193,7 @@ def c10_jobs(tier):
 
 def c11_jobs(tier):
     jobs = [J("hsms", "ZZ_C11_alias", scn=i, h=0) for i in range(11)]
+    jobs += [J("hsms", "ZZ_C11_alias", scn=12, h=0, kind=k, n=n) for k in range(14) for n in ((0, 1, 2) if k else (0,))]
     jobs += [J("hsms", "ZZ_C11_alias", scn=11, h=h, timeout_s=(1500 if tier == "quick" else 7200)) for h in ([1, 2] if tier == "quick" else [1, 2, 3])]
     return jobs
 
@@ -298,6 +301,11 @@ def c19_jobs(tier):
         for t2 in range(nt):
             for sep in range(ns):
                 jobs.append(J("sml", "ZZ_C19_concat", t1=t1, t2=t2, sep=sep, three=0, **T))
+    # a part that begins with k arbitrary bytes (whatever is accepted at the start of a text is accepted behind another text)
+    for k in ((1, 2, 3) if tier == "quick" else (1, 2, 3, 4)):
+        for sep in (0, 1, 2, 5):
+            jobs.append(J("sml", "ZZ_C19_concat", t1=4, t2=9, sep=sep, three=0, k=k, **T))
+            jobs.append(J("sml", "ZZ_C19_concat", t1=9, t2=0, sep=sep, three=0, k=k, **T))
     triples = [(0, 1, 0, 0, 2), (1, 1, 1, 7, 0), (4, 2, 3, 0, 0), (5, 5, 5, 2, 5), (6, 0, 6, 7, 7)]
     if tier != "quick":
         triples += [(a, b, c, s, r) for a in (0, 1, 5) for b in (1, 4, 6) for c in (0, 2, 3) for s in (0, 3, 7) for r in (0, 5)]
@@ -360,7 +368,8 @@ def c04_jobs(tier):
 
 
 def c17_jobs(tier):
-    return [J("sml", "ZZ_C17_noninterference", op=op) for op in range(10)] + [J("sml", "ZZ_C17_results", which=w) for w in range(4)]
+    return ([J("sml", "ZZ_C17_noninterference", op=op) for op in range(12)] + [J("sml", "ZZ_C17_results", which=w) for w in range(4)]
+            + [J("sml", "ZZ_C17_bare", order=o) for o in range(4)] + [J("sml", "ZZ_C17_history", b=b) for b in range(12)])
 
 
 def c12_jobs(tier):
@@ -393,6 +402,7 @@ def c12_jobs(tier):
             jobs.append(J("ast", "ZZ_C12_varname_idx", k=k, kind=kind, timeout_s=(1500 if tier == "quick" else 7200)))
     jobs += [J("ast", "ZZ_C12_ellipsis", which=i) for i in range(6)]
     jobs += [J("ast", "ZZ_C12_ellipsis", which=6, k=k) for k in ([0, 1, 2, 3] if tier == "quick" else [0, 1, 2, 3, 4, 5])]
+    jobs += [J("ast", "ZZ_C12_ellipsis", which=7, k=k, order=o) for k in range(6) for o in range(5)]
     jobs += [J("ast", "ZZ_C12_dupnames", which=i) for i in range(6)]
     jobs += [J("ast", "ZZ_C12_message", which=i) for i in range(3)]
     jobs += [J("ast", "ZZ_C12_message", which=3, k=k) for k in ([0, 1, 2, 3] if tier == "quick" else [0, 1, 2, 3, 4, 5])]
